@@ -223,6 +223,35 @@ static int check_new_names (
 	return 0;
 }
 
+/* the default name for entry `pos` of a list that also carries explicit names:
+ * prefix + number as usual, but never one of the names still to be added from
+ * the same list (nor one that is in the table already) */
+static const char *default_list_name (
+	ILLsymboltab * tab,
+	const char *prefix,
+	int id,
+	int num,
+	const char **names,
+	int pos,
+	char buf[ILL_namebufsize])
+{
+	int j, sind, clash;
+
+	if (names == NULL || names[pos] != NULL)
+		return names ? names[pos] : 0;
+	for (;;)
+	{
+		id++;
+		snprintf (buf, ILL_namebufsize, "%s%d", prefix, id);
+		clash = (tab->tablesize != 0 && !ILLsymboltab_lookup (tab, buf, &sind));
+		for (j = pos + 1; !clash && j < num; j++)
+			if (names[j] && strcmp (names[j], buf) == 0)
+				clash = 1;
+		if (!clash)
+			return buf;
+	}
+}
+
 int EGLPNUM_TYPENAME_ILLlib_optimize (
 	EGLPNUM_TYPENAME_lpinfo * lp,
 	EGLPNUM_TYPENAME_ILLlp_basis * B,
@@ -1180,9 +1209,11 @@ int EGLPNUM_TYPENAME_ILLlib_addrows (
 			EGLPNUM_TYPENAME_EGlpNumZero (rng);
 		if (names)
 		{
+			char nbuf[ILL_namebufsize];
+
 			rval = EGLPNUM_TYPENAME_ILLlib_addrow (lp, B, rmatcnt[i], (rmatcnt[i] ? rmatind + rmatbeg[i] : 0),
 														(rmatcnt[i] ? rmatval + rmatbeg[i] : 0), rhs[i], sense[i], rng,
-														names[i]);
+														default_list_name (&lp->O->rowtab, "c", lp->O->nrows, num, names, i, nbuf));
 		}
 		else
 		{
@@ -2258,9 +2289,12 @@ int EGLPNUM_TYPENAME_ILLlib_addcols (
 	{
 		if (names)
 		{
+			char nbuf[ILL_namebufsize];
+
 			rval = EGLPNUM_TYPENAME_ILLlib_addcol (lp, B, cmatcnt[i], (cmatcnt[i] ? cmatind + cmatbeg[i] : 0),
 														(cmatcnt[i] ? cmatval + cmatbeg[i] : 0), obj[i], lower[i],
-														upper[i], names[i], factorok);
+														upper[i], default_list_name (&lp->O->coltab, "x", lp->O->nstruct, num, names, i, nbuf),
+														factorok);
 		}
 		else
 		{
